@@ -177,6 +177,8 @@ func init() {
 				res := c.ruleLimbInvariant(cfg)
 				if res != nil && len(res.problems) == 0 {
 					c.ruleCongruences(cfg, res.box)
+					// Absolute is Select(−u, u, sign): exact only if Select chooses limb for limb for every reachable limb value
+					c.ruleSelectSwap(cfg, res.box)
 				}
 				c.e9AbsoluteNegate(cfg)
 				c.ruleFieldExponents(cfg)
@@ -287,6 +289,7 @@ func init() {
 		Build: func(c *Ctx) {
 			for _, cfg := range c.Configs() {
 				c.ruleScalarArith(cfg)
+				c.ruleFiatCongruences(cfg)
 				c.ruleScalarInvertExponent(cfg)
 				c.ruleScalarEqual(cfg)
 				c.ruleScalarConstants(cfg)
@@ -314,6 +317,7 @@ func init() {
 				c.ruleLengthSweep(cfg, "(*Scalar).SetUniformBytes", 64, 80)
 				c.ruleLengthSweep(cfg, "(*Scalar).SetBytesWithClamping", 32, 80)
 				c.ruleScalarEncodings(cfg)
+				c.ruleFiatCongruences(cfg)
 				c.ruleIsReduced(cfg)
 				c.ruleScalarConstants(cfg)
 				if a := c.Eff(cfg); a != nil {
